@@ -61,6 +61,8 @@ def _stmts(depth, dim, top=False):
     apply_ = st.builds(lambda t, o: {"s": "apply", "t": t, "o": o}, idx, idx)
     prop = st.builds(lambda h, r, l: {"s": "prop", "h": h, "r": r, "l": l}, idx, idx, st.none() | idx)
     exc = st.one_of(st.builds(lambda o: {"s": "badwrite", "o": o}, idx),
+                    # a constructor call that the library refuses (non-square data), caught by the program
+                    st.just({"s": "badctor"}),
                     st.builds(lambda n: {"s": "raise", "levels": n}, st.sampled_from([1, 1, 2])))
     # weights: exceptional statements end a block, keep them rare (about one in twelve leaves)
     leaf = st.integers(0, 11).flatmap(
@@ -392,6 +394,14 @@ class Machine(object):
                 return
             obj.live.data = "this is not an array"      # the library raises TypeError, which leaves the context
             ctx.fail("badwrite-accepted", obj.kind)
+        elif s == "badctor":
+            from quantarhei.qm import Operator
+            ctx.label("badctor:inside" if len(self.T) > 1 else "badctor:outside")
+            try:
+                Operator(data=numpy.zeros((2, 3)))
+                ctx.fail("badctor-accepted", "op")
+            except Exception:
+                pass             # refused; the program goes on inside the same context
         elif s == "raise":
             if len(self.T) > 1:
                 raise Abort(stm["levels"])
@@ -476,6 +486,7 @@ class Machine(object):
         # Hamiltonian is the one of the enclosing (outermost) basis
         protect = stm["protect"] and op.kind == "ham" and len(self.T) == 1
         snap = self.snapshot()
+        basis_op_before = qr.Manager().current_basis_operator
         depth = len(self.T)
         self.depth_max = max(self.depth_max, depth)
         pending = None
@@ -529,6 +540,11 @@ class Machine(object):
         after = self.snapshot()
         if after != snap:
             ctx.fail("bookkeeping-restored", "depth=%d" % depth, before=list(snap), after=list(after))
+            self.dead = True
+        elif qr.Manager().current_basis_operator is not basis_op_before:
+            # the operator that defines the enclosing basis is part of the bookkeeping (the secular machinery asks for it)
+            ctx.fail("bookkeeping-restored", "basis-operator/depth=%d" % min(depth, 2),
+                     now=type(qr.Manager().current_basis_operator).__name__, before=type(basis_op_before).__name__)
             self.dead = True
         # objects, read in the enclosing basis, equal their references again
         k = 0
